@@ -175,7 +175,20 @@ func IsCallTo(instr ssa.Instruction, names ...string) (*ssa.CallCommon, bool) {
 	// that type's method: it is presented in the static shape (receiver first among the arguments)
 	if cc := ci.Common(); cc.IsInvoke() && CurrentProg != nil {
 		if named, ok := cc.Value.Type().(*types.Named); ok && named.Obj().Pkg() != nil && strings.HasPrefix(named.Obj().Pkg().Path(), ModulePath) {
-			if impls := CurrentProg.Callees(cc); len(impls) == 1 {
+			impls := CurrentProg.Callees(cc)
+			if len(impls) == 0 {
+				// no type of the module implements it: an interface of the module put in front of a library
+				// type (a bufio.Writer behind a "flushWriter"). When every value converted to the interface
+				// anywhere in the module has one and the same concrete type, the call is that type's method
+				if t := soleDynamicType(CurrentProg, named); t != nil {
+					if sel := CurrentProg.SSA.MethodSets.MethodSet(t).Lookup(cc.Method.Pkg(), cc.Method.Name()); sel != nil {
+						if f := CurrentProg.SSA.MethodValue(sel); f != nil {
+							impls = []*ssa.Function{f}
+						}
+					}
+				}
+			}
+			if len(impls) == 1 {
 				in := strings.ReplaceAll(impls[0].String(), ModulePath+"/", "")
 				for _, want := range names {
 					if in == want {
@@ -860,4 +873,45 @@ func (p *Prog) Unwrap(fn *ssa.Function) *ssa.Function {
 		}
 	}
 	return fn
+}
+
+var soleDynCache = map[*types.Named]types.Type{}
+var soleDynDone = map[*types.Named]bool{}
+
+// soleDynamicType returns the one concrete type of the values converted to the module interface iface anywhere in
+// the module, or nil when there are several, none, or a conversion from another interface (unknown dynamic type).
+func soleDynamicType(p *Prog, iface *types.Named) types.Type {
+	if soleDynDone[iface] {
+		return soleDynCache[iface]
+	}
+	soleDynDone[iface] = true
+	var found types.Type
+	ok := true
+	for _, fn := range p.Funcs {
+		EachInstr(fn, func(in ssa.Instruction) {
+			switch x := in.(type) {
+			case *ssa.MakeInterface:
+				if !types.Identical(x.Type(), iface) {
+					return
+				}
+				if found != nil && !types.Identical(found, x.X.Type()) {
+					ok = false
+				}
+				found = x.X.Type()
+			case *ssa.ChangeInterface:
+				if types.Identical(x.Type(), iface) {
+					ok = false
+				}
+			case *ssa.TypeAssert:
+				if types.Identical(x.AssertedType, iface) {
+					ok = false
+				}
+			}
+		})
+	}
+	if !ok || found == nil {
+		return nil
+	}
+	soleDynCache[iface] = found
+	return found
 }
